@@ -171,6 +171,8 @@ def run(ctx):
         r.desc = "length partition of every byte conversion: accepted lengths, and lengths on which rejection is impossible"
         rules.append(r)
         rules.append(convert.rule_total("C13", repo, ls, list(SPEC) + TOTAL_EXTRA, cfg, results))
+        if cfg == "rel":
+            rules.append(profile.rule_nopanic_core("C13", repo, list(SPEC) + TOTAL_EXTRA, convert.make_conv))
         if cfg == "dev":
             results_dev = results
             rules.append(rule_siblings(results))
